@@ -9339,7 +9339,7 @@ class SVG(Group):
                         context.append(s)
                     context = s
                     use += 1
-                    if SVG_ATTR_ID in attributes and root is not None and use == 1:
+                    if SVG_ATTR_ID in attributes and isinstance(root, SVG) and use == 1:
                         root.objects[attributes[SVG_ATTR_ID]] = s
                 elif SVG_TAG_PATTERN == tag:
                     try:
@@ -9455,7 +9455,7 @@ class SVG(Group):
                     SVG_TAG_STYLE,
                 ):
                     attributes = elem.attrib
-                    if SVG_ATTR_ID in attributes and root is not None and use == 0:
+                    if SVG_ATTR_ID in attributes and isinstance(root, SVG) and use == 0:
                         root.objects[attributes[SVG_ATTR_ID]] = s
                 if tag in (SVG_TAG_TEXT, SVG_TAG_TSPAN):
                     try:
